@@ -1,11 +1,13 @@
 /- `wfdriver`: one request per line on stdin, one response per line on stdout. -/
 import Wf.Drv.Serde
+import Wf.Drv.Adapter
 
 open Wf.Drv
 
 def dispatch (line : String) : String :=
   match splitWords line with
   | "c26" :: rest => handleSerde rest
+  | "c27" :: rest => handleAdapter rest
   | _ => "bad-family"
 
 partial def loop (h : IO.FS.Stream) (out : IO.FS.Stream) : IO Unit := do
